@@ -571,12 +571,12 @@ func (root *Root) validateDirUse(where string, loc Location, du *DirectiveUse) (
 		// here. A Var is also allowed.
 		if _, ok := av.Value.(Var); !ok {
 			if co, _ := a.Type.(InCoercer); co != nil {
-				if v, err := co.CoerceIn(av.Value); err != nil {
+				// A copy is coerced, coercing fills the defaults of input
+				// objects in place. The use keeps the value as written, it
+				// is validated again on every load and a load that fails
+				// must not leave a trace on it.
+				if _, err := co.CoerceIn(copyValue(av.Value)); err != nil {
 					errs = append(errs, fmt.Errorf("%w at %d:%d", err, av.line, av.col))
-				} else {
-					// Might as well replace the coerced value since it is really
-					// what is needed.
-					av.Value = v
 				}
 			}
 		}
